@@ -304,3 +304,33 @@ def dphi_indep(q, f):
 
 def dvarphi_indep(q, f):
     return dphi_indep(q, f) / q.d_varphi_d_phi
+
+
+# Inputs distilled from seeded changes that random generation reached only rarely; every oracle that can use them runs them FIRST in check mode
+# (a corpus of minimised failures).  All are admissible on the pinned tree.
+CORPUS = [
+    # the only symmetry-breaking input is B2s, at order r3 (lasym must be True; surfaces are not stellarator symmetric)
+    dict(rc=[1.0, 0.09], zs=[0.0, -0.09], nfp=2, etabar=0.95, order='r3', B2c=-0.7, B2s=0.3, p2=-600000.0, nphi=31),
+    # the same at order r2
+    dict(rc=[1.0, 0.09], zs=[0.0, -0.09], nfp=2, etabar=0.95, order='r2', B2c=-0.7, B2s=0.3, p2=-600000.0, nphi=25),
+    # quasi-helical, spsi = -1, current and pressure, non-unit B0
+    dict(rc=[1.0, 0.17, 0.01804, 0.001409], zs=[0.0, 0.1581, 0.01820, 0.001548], nfp=4, etabar=1.569, order='r3', B2c=0.1348, B0=1.3, I2=0.4, p2=-50000.0,
+         sG=1, spsi=-1, nphi=41),
+    # non-symmetric axis with zc != 0 and nfp > 1, sG = -1
+    dict(rc=[1.0, 0.06], zs=[0.0, 0.05], rs=[0.0, 0.006], zc=[0.0, 0.02], nfp=3, etabar=-0.8, sigma0=0.1, order='r2', B2c=0.2, B2s=-0.1, B0=0.8, I2=-0.3,
+         sG=-1, spsi=1, nphi=31),
+]
+
+
+def corpus_objects(orders=None):
+    out = []
+    for cfg in CORPUS:
+        if orders and cfg.get('order', 'r1') not in orders:
+            continue
+        try:
+            q, msgs = build(dict(cfg))
+        except Exception:
+            continue
+        if admissible(q, msgs):
+            out.append((dict(cfg), q))
+    return out
